@@ -390,6 +390,9 @@ func treetraceMain(args []string) int {
 						det = func([]byte, uint32) bool { return false }
 					default:
 						s := data[rng.Intn(len(data))]
+						if rng.Intn(3) == 0 { // a signature that begins with (or is) the UTF-8 mark: below text/plain the header must be seen as given
+							s = []byte("\xEF\xBB\xBF{\"a\":1}")
+						}
 						n := 1 + rng.Intn(3)
 						if len(s) < n {
 							n = len(s)
